@@ -104,6 +104,10 @@ pub struct UnmockCase {
     /// the same mock before the target call
     #[serde(default)]
     pub prior_error: bool,
+    /// bit i set: a receiver-less provided function (`fn s<i>() -> u32 { .. }`, not mockable, but it
+    /// occupies a `_` slot of the unmock_with list) is declared before method i
+    #[serde(default)]
+    pub static_before: u8,
 }
 
 impl UnmockCase {
@@ -200,7 +204,18 @@ pub fn source(c: &UnmockCase) -> String {
             }
         })
         .collect();
-    let mut regs = regs;
+    let mut regs = {
+        // slots of receiver-less provided functions (`_`) in front of the methods they precede
+        let offset = c.recursion.is_some() as usize;
+        let mut out: Vec<String> = vec![];
+        for (slot, r) in regs.into_iter().enumerate() {
+            if slot >= offset && (c.static_before >> (slot - offset)) & 1 == 1 && slot - offset < 8 {
+                out.push("_".to_string());
+            }
+            out.push(r);
+        }
+        out
+    };
     if c.prior_error {
         regs.push("_".to_string());
     }
@@ -212,6 +227,9 @@ pub fn source(c: &UnmockCase) -> String {
         s.push_str("    fn rec(&self, n: u32) -> u32;\n");
     }
     for (i, m) in c.methods.iter().enumerate() {
+        if i < 8 && (c.static_before >> i) & 1 == 1 {
+            s.push_str(&format!("    fn s{i}() -> u32 {{ {i} }}\n"));
+        }
         if m.has_default {
             s.push_str(&format!(
                 "    {} {{ log(\"DEFAULT{i}\".to_string()); 77 }}\n",
@@ -472,6 +490,7 @@ pub fn judge(c: &UnmockCase, line: &str) -> Result<CaseInfo, String> {
             "provided+unmentioned->default-body",
         )
         .class_if(c.prior_error, "after-a-caught-mock-error")
+        .class_if(c.static_before & ((1u16 << c.methods.len().min(8)) - 1) as u8 != 0, "receiver-less-provided-fn-in-the-trait")
         .class_if(m.mut_recv, "recv:&mut self")
         .class_if(m.asy != Asy::Sync, "async")
         .class_if(c.recursion.is_some(), "recursion-through-mock")
@@ -549,10 +568,11 @@ pub fn case_strategy() -> impl Strategy<Value = UnmockCase> {
         any::<bool>(),
         proptest::option::weighted(0.35, 0..=6u8),
         proptest::bool::weighted(0.3),
+        prop_oneof![2 => Just(0u8), 1 => any::<u8>()],
     )
-        .prop_map(|(methods, t, partial, mention_unmatched, recursion, prior_error)| {
+        .prop_map(|(methods, t, partial, mention_unmatched, recursion, prior_error, static_before)| {
             let target = t as usize % methods.len();
-            UnmockCase { methods, target, partial, mention_unmatched, recursion, prior_error }
+            UnmockCase { methods, target, partial, mention_unmatched, recursion, prior_error, static_before }
         })
 }
 
